@@ -373,6 +373,98 @@ impl Phase for Consistency {
     }
 }
 
+/// large arguments: tuples of hundreds of elements, strings of thousands of characters
+struct LargeArgs {
+    n: u64,
+    names: Vec<&'static str>,
+    trees: Vec<Option<Node>>,
+}
+
+impl Phase for LargeArgs {
+    fn name(&self) -> String {
+        "large arguments (tuples of 50-600 elements, strings of 200-4000 characters)".into()
+    }
+    fn len(&self) -> u64 {
+        self.n
+    }
+    fn run(&mut self, _idx: u64, r: &mut Rng, out: &mut Out) {
+        let pick = *r.pick(&["min", "max", "contains", "contains_any", "len", "str::from", "typeof", "len", "str::substring", "str::trim", "str::to_uppercase", "str::to_lowercase"]);
+        let ni = self.names.iter().position(|n| *n == pick).unwrap();
+        let size = r.range(50, 600);
+        let nums = |r: &mut Rng, n: usize| -> Vec<RV> {
+            let base = r.int_bitlen() / 4;
+            (0..n)
+                .map(|_| match r.below(4) {
+                    0 => RV::Float((base as f64) + (r.below(2001) as f64 - 1000.0) / 4.0),
+                    _ => RV::Int(base.wrapping_add(r.below(2001) as i64 - 1000)),
+                })
+                .collect()
+        };
+        let long_string = |r: &mut Rng| -> String {
+            let n = r.range(200, 4000);
+            let alphabet: Vec<char> = "abcXYZ 0189\t\n,;()äßİ日😀\u{a0}\u{3000}".chars().collect();
+            let mut s = String::new();
+            // leading / trailing whitespace of several kinds for trim
+            for _ in 0..r.below(4) {
+                s.push(*r.pick(&[' ', '\t', '\u{a0}', '\u{3000}', '\n', '\u{b}']));
+            }
+            for _ in 0..n {
+                s.push(*r.pick(&alphabet));
+            }
+            for _ in 0..r.below(4) {
+                s.push(*r.pick(&[' ', '\t', '\u{a0}', '\u{3000}', '\n', '\u{b}']));
+            }
+            s
+        };
+        let arg = match pick {
+            "min" | "max" => {
+                let mut v = nums(r, size);
+                // the extremum at a chosen place: first, last, middle, duplicated
+                let ext = RV::Int(if pick == "min" { i64::MIN / 2 } else { i64::MAX / 2 });
+                let pos = match r.below(4) {
+                    0 => 0,
+                    1 => size - 1,
+                    _ => r.below(size),
+                };
+                v[pos] = ext;
+                RV::Tuple(v)
+            },
+            "contains" => {
+                let v = nums(r, size);
+                let needle = if r.chance(1, 2) { v[if r.chance(1, 2) { size - 1 } else { r.below(size) }].clone() } else { RV::Int(123456789) };
+                RV::Tuple(vec![RV::Tuple(v), needle])
+            },
+            "contains_any" => {
+                let v = nums(r, size);
+                let nn = r.range(1, 40);
+                let mut ns = nums(r, nn);
+                if r.chance(1, 2) {
+                    let k = ns.len() - 1;
+                    ns[k] = v[size - 1].clone();
+                }
+                RV::Tuple(vec![RV::Tuple(v), RV::Tuple(ns)])
+            },
+            "len" | "typeof" | "str::from" => {
+                if r.chance(1, 2) {
+                    RV::Tuple(nums(r, size))
+                } else {
+                    RV::Str(long_string(r))
+                }
+            },
+            "str::substring" => {
+                let s = long_string(r);
+                let n = s.len() as i64;
+                let a = r.below(n as usize + 2) as i64;
+                let b = r.below(n as usize + 2) as i64;
+                RV::Tuple(vec![RV::Str(s), RV::Int(a.min(b)), RV::Int(a.max(b))])
+            },
+            _ => RV::Str(long_string(r)),
+        };
+        out.count(&format!("large {}", pick));
+        check_call(out, pick, &self.trees[ni], &arg, false);
+    }
+}
+
 pub fn selfcheck() -> Result<String, String> {
     // README / pinned-test facts the reference must reproduce
     let t = |n: &str, a: RV, want: RV| -> Result<(), String> {
@@ -431,6 +523,11 @@ pub fn phases(cfg: &Cfg) -> Vec<Box<dyn Phase>> {
             len_tree: build_opt("len(x)"),
             sub3: build_opt("str::substring(x, i, j)"),
             sub2: build_opt("str::substring(x, i)"),
+        }),
+        Box::new(LargeArgs {
+            n: cfg.n(6_000, 300_000),
+            trees: call_trees(&names),
+            names: names.clone(),
         }),
         Box::new(RandomArgs {
             n: cfg.n(2_000_000, 20_000_000),
